@@ -2,7 +2,7 @@
     UNREPAIRED source (sequential subs, structural ==, sequential tuple assignment) returns a wrong
     expression on a concrete program.  The same programs are in harness/c06_corpus.py and were
     wrong on the real unrepaired code. *)
-From FnSym Require Import FnToSym.
+From FnSym Require Import FnToSym ConstEnv.
 Local Open Scope N_scope.
 
 Definition bin_tab := [(Add, Add); (Sub, Sub); (Mul, Mul); (Div, Div); (Pow, Pow); (Mod, Mod); (FloorDiv, FloorDiv)].
@@ -11,11 +11,11 @@ Definition cmp_tab := [(Gt, RelGt); (GtE, RelGe); (Lt, RelLt); (LtE, RelLe); (CE
 Definition cmp_tab_struct := [(Gt, RelGt); (GtE, RelGe); (Lt, RelLt); (LtE, RelLe); (CEq, StructEq); (CNe, StructNe)].
 
 Definition facts_seq_subs : facts :=
-  mkFacts bin_tab un_tab cmp_tab true SubsSeq TupSim StmtRaise CfContinuation true true true.
+  mkFacts bin_tab un_tab cmp_tab true SubsSeq TupSim StmtRaise (CfContinuation BrCopy BrCopy) true true true ConstAtCall.
 Definition facts_struct_eq : facts :=
-  mkFacts bin_tab un_tab cmp_tab_struct true SubsSim TupSim StmtRaise CfContinuation true true true.
+  mkFacts bin_tab un_tab cmp_tab_struct true SubsSim TupSim StmtRaise (CfContinuation BrCopy BrCopy) true true true ConstAtCall.
 Definition facts_seq_tuple : facts :=
-  mkFacts bin_tab un_tab cmp_tab true SubsSim TupSeq StmtRaise CfContinuation true true true.
+  mkFacts bin_tab un_tab cmp_tab true SubsSim TupSeq StmtRaise (CfContinuation BrCopy BrCopy) true true true ConstAtCall.
 
 (** def swap(a, b): return a - b *)
 Definition w_swap : fundef := mkFun [1; 2] [] (SCons (SReturn (EBin Sub (EVar 1) (EVar 2))) SNil).
@@ -114,3 +114,162 @@ Proof.
   split; [repeat constructor|].
   split; vm_compute; reflexivity.
 Qed.
+
+(** ---- the shape of the ast.If block is load-bearing --------------------------------------------
+    The translator model with the OTHER shapes the fact [f_cf] can take returns wrong expressions on
+    the corpus witnesses (harness/c06_corpus.py: leak, after_else, guard_then_reassign). *)
+Definition facts_cf (m : cf_mode) : facts :=
+  mkFacts bin_tab un_tab cmp_tab true SubsSim TupSim StmtRaise m true true true ConstAtCall.
+(** one copy handed to both recursive calls (seeded C07-2) *)
+Definition facts_shared_copy : facts := facts_cf (CfContinuation BrShared BrShared).
+(** the if-branch works on the enclosing table itself *)
+Definition facts_if_on_ctx : facts := facts_cf (CfContinuation BrCtx BrCopy).
+(** the copy is elided for a branch without a top-level assignment (seeded C06-1) *)
+Definition facts_copy_if_binds : facts := facts_cf (CfContinuation BrCopyIfBinds BrCopyIfBinds).
+(** the translator before /repo cc17922 *)
+Definition facts_old_pieces : facts := facts_cf CfOldPieces.
+(** constants through a per-module memo (seeded C06-3) *)
+Definition facts_cached_consts : facts :=
+  mkFacts bin_tab un_tab cmp_tab true SubsSim TupSim StmtRaise (CfContinuation BrCopy BrCopy) true true true ConstCached.
+
+(** def leak(a):  b = 0 ; if a > 1: b = a ; return b *)
+Definition w_leak : fundef :=
+  mkFun [1] []
+    (SCons (SAssign 2 (ENum 0))
+    (SCons (SIf (CCmp (EVar 1) (ChCons Gt (ENum 1) ChNil)) (SCons (SAssign 2 (EVar 1)) SNil) SNil)
+    (SCons (SReturn (EVar 2)) SNil))).
+(** def after_else(a):  if a > 1: b = a   else: b = a**2 ;  return b + 1 *)
+Definition w_after_else : fundef :=
+  mkFun [1] []
+    (SCons (SIf (CCmp (EVar 1) (ChCons Gt (ENum 1) ChNil))
+              (SCons (SAssign 2 (EVar 1)) SNil)
+              (SCons (SAssign 2 (EBin Pow (EVar 1) (ENum 2))) SNil))
+    (SCons (SReturn (EBin Add (EVar 2) (ENum 1))) SNil)).
+(** def guard_then_reassign(x, k):
+        if x > 1:
+            if k > 0: return k
+        x = x * 2
+        return x + 1 *)
+Definition w_guard : fundef :=
+  mkFun [1; 2] []
+    (SCons (SIf (CCmp (EVar 1) (ChCons Gt (ENum 1) ChNil))
+              (SCons (SIf (CCmp (EVar 2) (ChCons Gt (ENum 0) ChNil)) (SCons (SReturn (EVar 2)) SNil) SNil) SNil)
+              SNil)
+    (SCons (SAssign 1 (EBin Mul (EVar 1) (ENum 2)))
+    (SCons (SReturn (EBin Add (EVar 1) (ENum 1))) SNil))).
+(** def pass_then_reassign(x):  if x > 1: pass ;  x = x * 2 ;  return x + 1 *)
+Definition w_pass_guard : fundef :=
+  mkFun [1] []
+    (SCons (SIf (CCmp (EVar 1) (ChCons Gt (ENum 1) ChNil)) (SCons SPass SNil) SNil)
+    (SCons (SAssign 1 (EBin Mul (EVar 1) (ENum 2)))
+    (SCons (SReturn (EBin Add (EVar 1) (ENum 1))) SNil))).
+
+Definition wrong_on (fs : facts) (fd : fundef) (vs : list Q) : Prop :=
+  exists ps e v rho,
+    nth_error (summaries fs [fd]) 0 = Some (Some (ps, e)) /\
+    py_call [fd] 0 vs = Some v /\
+    (forall x q, assoc x (combine ps vs) = Some q -> rho x = Some q) /\
+    seval rho e <> Some v.
+
+Ltac wrong_witness ps e v vs :=
+  exists ps, e, v, (fun x => assoc x (combine ps vs));
+  split; [vm_compute; reflexivity|];
+  split; [vm_compute; reflexivity|];
+  split; [intros x q H; exact H|];
+  vm_compute; discriminate.
+
+(** branch leak: at a = 1 Python returns 0, the expression (a if a > 1 else a) returns 1 *)
+Lemma shared_copy_leaks : wrong_on facts_shared_copy w_leak [1#1].
+Proof.
+  wrong_witness [1] (SPw (PCons (SSym 1) (SRel Gt (SSym 1) (SNum 1)) (PCons (SSym 1) (SBool true) PNil)))
+                (0#1) [1#1].
+Qed.
+Lemma if_on_ctx_leaks : wrong_on facts_if_on_ctx w_leak [1#1].
+Proof.
+  wrong_witness [1] (SPw (PCons (SSym 1) (SRel Gt (SSym 1) (SNum 1)) (PCons (SSym 1) (SBool true) PNil)))
+                (0#1) [1#1].
+Qed.
+Lemma old_pieces_leaks : wrong_on facts_old_pieces w_leak [1#1].
+Proof.
+  wrong_witness [1] (SPw (PCons (SSym 1) (SRel Gt (SSym 1) (SNum 1)) (PCons (SSym 1) (SBool true) PNil)))
+                (0#1) [1#1].
+Qed.
+(** code after a complete if/else is dropped: at a = 2 Python returns 3, the expression 2 *)
+Lemma old_pieces_drops_code : wrong_on facts_old_pieces w_after_else [2#1].
+Proof.
+  wrong_witness [1] (SPw (PCons (SSym 1) (SRel Gt (SSym 1) (SNum 1))
+                         (PCons (SBin Pow (SSym 1) (SNum 2)) (SBool true) PNil)))
+                (3#1) [2#1].
+Qed.
+(** guard-style if + self-referential reassignment: at (x, k) = (1, 0) Python returns 3, the
+    expression applies  x = x * 2  twice on the path that skips the guard: 5 *)
+Lemma copy_if_binds_doubles : wrong_on facts_copy_if_binds w_guard [1#1; 0#1].
+Proof.
+  unfold wrong_on. eexists [1; 2], _, (3#1), (fun x => assoc x (combine [1; 2] [1#1; 0#1])).
+  split; [vm_compute; reflexivity|].
+  split; [vm_compute; reflexivity|].
+  split; [intros x q H; exact H|].
+  vm_compute; discriminate.
+Qed.
+Lemma copy_if_binds_doubles_pass : wrong_on facts_copy_if_binds w_pass_guard [1#1].
+Proof.
+  unfold wrong_on. eexists [1], _, (3#1), (fun x => assoc x (combine [1] [1#1])).
+  split; [vm_compute; reflexivity|].
+  split; [vm_compute; reflexivity|].
+  split; [intros x q H; exact H|].
+  vm_compute; discriminate.
+Qed.
+
+(** with the shipped shape the same four programs are translated correctly at those points *)
+Lemma per_path_right_on_witnesses :
+  ~ wrong_on expected_facts w_leak [1#1] /\ ~ wrong_on expected_facts w_after_else [2#1] /\
+  ~ wrong_on expected_facts w_guard [1#1; 0#1] /\ ~ wrong_on expected_facts w_pass_guard [1#1].
+Proof.
+  repeat split; intros [ps [e [v [rho [H1 [H2 [H3 H4]]]]]]];
+    vm_compute in H1; vm_compute in H2; inversion H1; inversion H2; subst; apply H4;
+    cbn [seval spw sevalc];
+    repeat match goal with
+           | |- context [rho ?x] => rewrite (H3 x _ eq_refl)
+           end; vm_compute; reflexivity.
+Qed.
+
+(** ---- constants: a remembered table is a different function ------------------------------------
+    def uses_k(a): return a * K     translated while K = 2.5, then K is rebound to 4 and the function
+    is translated again: the memoised translator still embeds 2.5 *)
+Definition w_uses_k : mfun := mkMFun [1] 0 (SCons (SReturn (EBin Mul (EVar 1) (EVar 50))) SNil).
+
+Lemma cached_constants_wrong :
+  exists first now ms i e vs v rho,
+    translate facts_cached_consts [] first ms i [] = Some e /\     (* the earlier translation, K = 5/2 *)
+    translate facts_cached_consts first now ms i [] = Some e /\    (* after rebinding: the SAME expression *)
+    py_value now ms i vs = Some v /\
+    (forall x q, assoc x (combine (mf_params w_uses_k) vs) = Some q -> rho x = Some q) /\
+    seval rho e <> Some v.
+Proof.
+  exists [(0, [(50, 5#2)])], [(0, [(50, 4#1)])], [w_uses_k], 0%nat,
+    (SBin Mul (SSym 1) (SNum (5#2))), [1#1], (4#1), (fun x => assoc x (combine [1] [1#1])).
+  split; [vm_compute; reflexivity|].
+  split; [vm_compute; reflexivity|].
+  split; [vm_compute; reflexivity|].
+  split; [intros x q H; exact H|].
+  vm_compute. discriminate.
+Qed.
+
+(** non-vacuity for the constants theorem: with the shipped facts the second translation follows K *)
+Lemma constants_nonvacuous :
+  exists e,
+    translate expected_facts [(0, [(50, 5#2)])] [(0, [(50, 4#1)])] [w_uses_k] 0 [SSym 7] = Some e /\
+    py_value [(0, [(50, 4#1)])] [w_uses_k] 0 [3#1] = Some (12#1) /\
+    seval (fun x => assoc x [(7, 3#1)]) e = Some (12#1).
+Proof.
+  eexists. split; [vm_compute; reflexivity|]. split; vm_compute; reflexivity.
+Qed.
+
+(** non-vacuity for whole-body refusal: an augmented assignment on ONE path behind two ifs
+      def f(a):  if a > 1: (if a > 2: pass  else: a += 1) ;  return a          *)
+Definition w_deep_other : fundef :=
+  mkFun [1] []
+    (SCons (SIf (CCmp (EVar 1) (ChCons Gt (ENum 1) ChNil))
+              (SCons (SIf (CCmp (EVar 1) (ChCons Gt (ENum 2) ChNil)) (SCons SPass SNil) (SCons SOther SNil)) SNil)
+              SNil)
+    (SCons (SReturn (EVar 1)) SNil)).
